@@ -506,3 +506,73 @@ func TestD17_TieThroughFunctionInProgress(t *testing.T) {
 		}
 	}
 }
+
+// D18 (C16): NewFuncList dropped its options: defaults given at construction
+// never applied.
+func TestD18_NewFuncListDefaults(t *testing.T) {
+	fs, err := argmapper.NewFuncList([]interface{}{func(a T0) int { return a.K }}, argmapper.Typed(T0{K: 5}))
+	if err != nil {
+		t.Fatalf("NewFuncList: %v", err)
+	}
+	res, p := call(fs[0])
+	if p != nil {
+		t.Fatalf("panic: %v", p)
+	}
+	if res.Err() != nil {
+		t.Fatalf("the default option given to NewFuncList did not apply: %.200s", res.Err())
+	}
+	if res.Out(0).(int) != 5 {
+		t.Fatalf("got %v", res.Out(0))
+	}
+	// a call option still overrides the default
+	res, _ = call(fs[0], argmapper.Typed(T0{K: 9}))
+	if res.Err() != nil || res.Out(0).(int) != 9 {
+		t.Fatalf("override: err=%v", res.Err())
+	}
+}
+
+// D19 (C06, C15): BuildFunc documents a nil input/output set as "no values",
+// but calling a function built with a nil input set panicked (index out of
+// range in FromSignature).
+func TestD19_BuildFuncNilInput(t *testing.T) {
+	out, err := argmapper.NewValueSet([]argmapper.Value{{Name: "x", Type: reflect.TypeOf(0)}})
+	if err != nil {
+		t.Fatal(err)
+	}
+	called := 0
+	bf, err := argmapper.BuildFunc(nil, out, func(in, o *argmapper.ValueSet) error {
+		called++
+		if in == nil {
+			return fmt.Errorf("callback received a nil input set")
+		}
+		o.Named("x").Value = reflect.ValueOf(7)
+		return nil
+	})
+	if err != nil {
+		t.Fatalf("BuildFunc: %v", err)
+	}
+	res, p := call(bf)
+	if p != nil {
+		t.Fatalf("calling a function built with a nil input set panicked: %v", p)
+	}
+	if res.Err() != nil {
+		t.Fatalf("err: %v", res.Err())
+	}
+	if called != 1 {
+		t.Fatalf("callback ran %d times", called)
+	}
+	// and as a provider for another function
+	target := argmapper.MustFunc(argmapper.NewFunc(func(in struct {
+		argmapper.Struct
+		X int
+	}) int {
+		return in.X
+	}))
+	res, p = call(target, argmapper.ConverterFunc(bf))
+	if p != nil {
+		t.Fatalf("panic: %v", p)
+	}
+	if res.Err() != nil || res.Out(0).(int) != 7 {
+		t.Fatalf("as provider: err=%v", res.Err())
+	}
+}
